@@ -410,7 +410,7 @@ def obligations(tier):
             continue
         obs.append(Ob(pipe1, fixed={'base': base}, pre='0 <= c0 < %d and %s' % (NST, rng), name='pipe1_b%d' % base))
     for c0 in range(NST):
-        obs.append(Ob(pipe2, fixed={'base': 0, 'c0': c0}, pre='0 <= c1 < %d and %s' % (NST, rng), name='pipe2_%s_any' % STAGE_NAMES[c0]))
+        obs.append(Ob(pipe2, fixed={'base': 0, 'c0': c0}, pre='0 <= c1 < %d and %s' % (NST, rng), name='pipe2_%s_any' % STAGE_NAMES[c0], timeout=150))
     for base in (1, 2, 3):
         for c0 in ([0, 1, 5, 8] if q else range(NST)):
             if base == 1:
